@@ -5,7 +5,7 @@ import corpora
 
 KERNEL = "Lean 4.33.0 kernel (lake build; leanchecker re-check in the thorough tier); axioms per theorem audited ⊆ {propext, Quot.sound, Classical.choice}"
 TRANSLATOR = "tools/extract.py + tools/rsparse.py (translator: Rust fragments -> lean/GA/Gen/*.lean, regenerated every run)"
-BODYTIE = "tools/bodyx.py + tools/rsbody.py (whole-body translator: every statement of the functions of src/iter.rs and of the drop guards / is_full / finish of src/internal.rs -> body IR in lean/GA/Gen/Body.lean, regenerated every run) and the body-IR interpreter lean/GA/Model/Body.lean (its semantics of ptr::read, get_unchecked, drop_in_place, mem::forget, slice fold/rfold/zip loops, scope-end and unwinding drops is the model of Rust that the body-level theorems rest on)"
+BODYTIE = "tools/bodyx.py + tools/rsbody.py (whole-body translator: every statement of the functions of src/iter.rs, of the drop guards / new / extend / is_full / finish / iter_position of src/internal.rs and of try_from_iter / from_iter / generate of src/lib.rs -> body IR in lean/GA/Gen/Body.lean, regenerated every run) and the body-IR interpreter lean/GA/Model/Body.lean (its semantics of ptr::read, get_unchecked, drop_in_place, mem::forget, slice fold/rfold/zip loops, scope-end and unwinding drops is the model of Rust that the body-level theorems rest on)"
 HARNESS = "harness/ (Rust correspondence harness calling the real crate in-process) + tools/scen.py + canonicalisation in tools/orchestrate.py"
 
 PROPS = {}
@@ -44,7 +44,7 @@ def own_sig(l):
 
 
 PROPS["C04"] = Prop(
-    "C04", ["GA.Props.C04", "GA.Props.Body"],
+    "C04", ["GA.Props.C04", "GA.Props.Body", "GA.Props.BodyCollect"],
     [Engine("own", scen.own_c04, sig=own_sig, body_view=True),
      Engine("heap", scen.heap_c04, sig=lambda l: l.split()[0] + "/" + l.split()[2])],
     trusted=[KERNEL, TRANSLATOR, BODYTIE, HARNESS, OWN_TRUST],
@@ -66,9 +66,9 @@ PROPS["C05"] = Prop(
 PARAMS["C05"] = {"rule": "iterator nth / nth_back / last / count / drop from every reachable (front, back) for N <= 6 (thorough: 8), every skip count 0..=len+1, every choice of the element whose destructor panics (and none); boundary positions for N in {16,17,33}. Non-trivial = a destructor panicked."}
 
 PROPS["C07"] = Prop(
-    "C07", ["GA.Props.C07"],
-    [Engine("own", scen.own_c07, sig=own_sig)],
-    trusted=[KERNEL, TRANSLATOR, HARNESS, OWN_TRUST, "modelled, not verified: Vec::with_capacity/extend/Take of alloc and core for the boxed form"],
+    "C07", ["GA.Props.C07", "GA.Props.BodyCollect"],
+    [Engine("own", scen.own_c07, sig=own_sig, body_view=True)],
+    trusted=[KERNEL, TRANSLATOR, BODYTIE, HARNESS, OWN_TRUST, "modelled, not verified: Vec::with_capacity/extend/Take of alloc and core for the boxed form"],
     assumptions=["the source is modelled as the list of answers its next() calls give plus a size_hint; answers after the first None may be Some again (not fused)",
                  "correspondence covers N in {0..8,16,17,33}; theorems cover every N, every script, every hint"],
     nontrivial=lambda s, impl: "res=ok" in impl or "res=err" in impl,
@@ -76,8 +76,8 @@ PROPS["C07"] = Prop(
 PARAMS["C07"] = {"rule": "N in {0..8,16,17,33} x item counts 0..=N+3 x nine size hints (exact, loose, absent-upper, lying low/high, excluding N) x fused / non-fused / never-ending scripts x stack/boxed x try/panicking form x a panic at every poll; plus seeded random scripts. Non-trivial = the call returned Ok or Err (not a panic)."}
 
 PROPS["C08"] = Prop(
-    "C08", ["GA.Props.C08"],
-    [Engine("own", scen.own_c08, sig=own_sig), Engine("heap", scen.heap_c08, sig=lambda l: l.split()[0] + "/" + l.split()[2])],
+    "C08", ["GA.Props.C08", "GA.Props.BodyCollect"],
+    [Engine("own", scen.own_c08, sig=own_sig, body_view=True), Engine("heap", scen.heap_c08, sig=lambda l: l.split()[0] + "/" + l.split()[2])],
     trusted=[KERNEL, TRANSLATOR, HARNESS, OWN_TRUST],
     assumptions=["caller code does not panic in this property (C04 covers panics); closures are stateful recorders in the harness",
                  "correspondence covers N in {0..8,16,17,33}; theorems cover every N"],
@@ -128,7 +128,7 @@ PROPS["C11"] = Prop(
 PARAMS["C11"] = {"rule": "flatten / unflatten, owned, & and &mut, for every (N, M) in 0..=6 squared (N >= 1 for unflatten) plus (1,1024), (1024,1), (16,64); 5 element kinds incl. zero-sized and drop-tracked; element order, address and extent of the regrouped value/view."}
 
 PROPS["C03"] = Prop(
-    "C03", ["GA.Props.C03", "GA.Props.Body"],
+    "C03", ["GA.Props.C03", "GA.Props.Body", "GA.Props.BodyCollect"],
     [Engine("hist", scen.hist, sig=lambda l: "len%d" % min(40, 5 * (l.count(";") // 5)), miri=12),
      Engine("seq", scen.seq, sig=lambda l: l.split()[0] + "/" + l.split()[-1]),
      Engine("regroup", lambda t, s, p: [x for x in scen.regroup(t, s, p) if "kind=tr" in x], sig=lambda l: l.split()[0])],
